@@ -14,8 +14,8 @@ CHECKS = {
     "C01": (
         "exploration", "engine",
         "stateless exhaustive enumeration of (grammar x context x trivia x modifier x input x start position) executions; relational oracle interpreter == generated module",
-        "Every expression kind in every nesting context (49 contexts that force 'inner construct commits, outer construct fails', and contexts composed with contexts), with stack operations, tags, all rule modifiers and trivia configurations, is run on every short input in both interpreters and in the modules generated from them; "
-        "the generated module must compile, be byte-identical on regeneration, and return exactly the interpreter's tree (names, spans, nesting, tags) or fail with the same furthest_pos. Added families: every repetition bound incl. zero counts, NEWLINE, the skip idiom in eleven templates, explicitly named non-silent WHITESPACE/COMMENT, literals made of regex metacharacters, implicit rules that touch the stack, and rule names that collide with generated identifiers or that Enum reserves (systematic).",
+        "Every expression kind in every nesting context (48 contexts that force 'inner construct commits, outer construct fails', and contexts composed with contexts), with stack operations, tags, all rule modifiers and trivia configurations, is run on every short input in both interpreters and in the modules generated from them; "
+        "the generated module must compile, be byte-identical on regeneration, and return exactly the interpreter's tree (names, spans, nesting, tags) or fail with the same furthest_pos. Added families: every repetition bound incl. zero counts, NEWLINE, the skip idiom in eleven templates, explicitly named non-silent WHITESPACE/COMMENT, literals made of regex metacharacters, implicit rules that push, pop or read the stack, recursive grammars, repetitions over operands that match empty and still terminate, unparenthesised postfix chains, every built-in rule, and rule names that collide with generated identifiers or that Enum reserves (systematic).",
         "Trusted: CPython exec, the tuple canonicalisation of Pairs. No reference model is needed (the property is relational). Not covered: larger grammars; bundled real grammars are compared the same way in C08.",
         "5/C01",
     ),
@@ -32,7 +32,7 @@ CHECKS = {
         "model_checking", "engine",
         "stateless exhaustive enumeration of (grammar x input) executions of the unoptimised interpreter in lock-step with an executable reference PEG model",
         "Every well-formed expression up to n nodes over the core operators, as a normal and as a silent rule body, is run on every input up to length L in the unoptimised interpreter and compared (accept/reject and full tree) with the reference evaluator, "
-        "which is a persistent-state big-step transcription of pest's semantics validated on the pest-derived samples of the repository's own suite. Small grammars x short inputs exhaustively is the first half of the property's quantifier; added families reach what the size bound cannot: every repetition bound up to 3 in four contexts, NEWLINE on \\r/\\n inputs, the empty literal, metacharacter literals.",
+        "which is a persistent-state big-step transcription of pest's semantics validated on the pest-derived samples of the repository's own suite. Small grammars x short inputs exhaustively is the first half of the property's quantifier; added families reach what the size bound cannot: every repetition bound up to 3 in four contexts, NEWLINE on \\r/\\n inputs, the empty literal, metacharacter literals, recursive grammars, three contexts deep, unparenthesised postfix chains.",
         "Trusted: mc/refpeg.py (validated on 127 pinned pest-suite samples), the conservative printer, CPython. Not covered: grammars/inputs beyond the bound, the 'larger ones sampled' clause, recursion.",
         "5/C03",
     ),
@@ -40,7 +40,7 @@ CHECKS = {
         "model_checking", "engine",
         "stateless exhaustive enumeration of (grammar x trivia configuration x modifier x input) executions in all four modes in lock-step with the reference PEG model",
         "Start-rule bodies up to n nodes over literals and @ $ ! _ helper rules (five helper packs with modifier nesting depth 3-4), every start modifier, eleven WHITESPACE/COMMENT configurations (incl. a COMMENT that starts with a WHITESPACE character, one that calls a non-atomic rule, non-silent ones named explicitly) and every input over the letters plus the trivia symbols "
-        "(so trivia is leading, between, trailing, inside atomic spans and unterminated) are run in IU, GU, IO and GO and compared - spans, inner pairs, positions of non-silent trivia pairs - with the reference evaluator. Added: the skip idiom under every modifier, rules with their own atomicity called inside abandoned alternatives / predicates (atomic depth must be restored), contexts composed with contexts over the full terminal set.",
+        "(so trivia is leading, between, trailing, inside atomic spans and unterminated) are run in IU, GU, IO and GO and compared - spans, inner pairs, positions of non-silent trivia pairs - with the reference evaluator. Added: the skip idiom under every modifier, rules with their own atomicity called inside abandoned alternatives / predicates (atomic depth must be restored), contexts composed with contexts over the full terminal set, implicit rules that call non-atomic rules, recursive grammars under whitespace, a rule first reached through a wrapper of another atomicity.",
         "Trusted: mc/refpeg.py (skip placement, atomicity and pair visibility transcribed from pest's generator/ParserState; validated on the pinned pest-suite samples). Helper packs are fixed, not enumerated. Not covered: larger bodies, longer inputs.",
         "5/C04",
     ),
@@ -48,7 +48,7 @@ CHECKS = {
         "model_checking", "engine",
         "stateless exhaustive enumeration of stack-operation grammars x inputs in four modes in lock-step with the reference model (persistent stack), plus the ParserState BFS of C09 for the history half",
         "Template PRE ~ W[INNER ~ FAILER] ~ PEEK_ALL ~ EOI: the input suffix that lets the parse succeed is the stack content, so the stack after every abandoned alternative, optional, repetition iteration and predicate is observable through parse(). "
-        "INNER ranges over all expressions up to k nodes over the seven stack operations and four PEEK slices. Outcome and spans are compared with the reference evaluator in all four modes; any exception other than PestParsingError is a violation, also where the model is UNSPEC (empty-stack PEEK/POP). Added: repetitions whose operand succeeds without consuming input (DROP*, POP of an empty entry), and stack operations next to an implicit rule that pushes before it can fail.",
+        "INNER ranges over all expressions up to k nodes over the seven stack operations and four PEEK slices. Outcome and spans are compared with the reference evaluator in all four modes; any exception other than PestParsingError is a violation, also where the model is UNSPEC (empty-stack PEEK/POP). Added: repetitions whose operand succeeds without consuming input (DROP*, POP of an empty entry), stack operations next to implicit rules that push before they can fail or that pop, two levels of backtracking each holding a stack operation, recursive rules with stack operations before and after the recursive part.",
         "Trusted: mc/refpeg.py stack semantics (pest's stack_push/peek/pop/drop/match_peek_slice; restore-on-error for every abandoned attempt). Not covered: deeper INNER, implicit trivia in this family.",
         "5/C05",
     ),
@@ -72,7 +72,7 @@ CHECKS = {
         "exploration", "engine",
         "exhaustive enumeration of (rewrite site x rewrite kind) over the bundled grammars x a fixed finite corpus incl. all prefixes; metamorphic oracle rewritten == original",
         "Sites are read off the meta-grammar's own parse tree of each bundled .pest file (every untagged term, every rule-body / parenthesised / PUSH expression, every run of >= 3 sequence terms or alternatives); each site gets redundant parentheses, (e)|(e), ((e)~NEVER)|(e), (!(e)~NEVER)|(e), "
-        "extraction into a fresh silent rule, and every re-association split; combinations: a second rewrite applied to the result of a first, one kind at every literal at once, (thorough) two nearby sites. Two small grammars written for the check add the constructs no bundled grammar has (entry-replacing stack operations, case-insensitive stops, tags, bounded repetitions). The rewritten grammar must give the same outcome and tree as the original on every corpus input (examples, pest-derived test inputs, short valid/invalid inputs and all their prefixes) in the same mode.",
+        "extraction into a fresh silent rule, and every re-association split; combinations: a second rewrite applied to the result of a first, one kind at every literal at once, (thorough) two nearby sites. The operand of a term with prefix/postfix operators or a tag is a site of its own. Two small grammars written for the check add the constructs no bundled grammar has (entry-replacing stack operations, case-insensitive stops, tags, bounded repetitions). The rewritten grammar must give the same outcome and tree as the original on every corpus input (examples, pest-derived test inputs, short valid/invalid inputs and all their prefixes) in the same mode.",
         "Trusted: the text surgery is always parenthesised; the NEVER literal is checked absent from the corpus. Single rewrites only (no pairs). quick runs the generated modes only for the six small grammars.",
         "5/C08",
     ),
@@ -89,7 +89,7 @@ CHECKS = {
         "model_checking", "texts",
         "exhaustive enumeration of grammar texts (all token sequences up to K tokens, all rule headers, all layouts of accepted bodies) against pest's meta-grammar executed by the reference PEG model",
         "The oracle is tests/grammars/meta.pest itself, loaded by a bootstrap parser and executed by mc/refpeg.py ('pest's meta-grammar under pest's semantics'); the bootstrap is discharged by a fixpoint check (the meta-grammar accepts its own text and denotes what the bootstrap read) and by agreement on all bundled grammars. "
-        "Every text is accepted by from_grammar iff the oracle accepts it, and when both accept, names, modifiers, docs and the expression structure (precedence, prefix/postfix chains, bounds, tags, slices, decoded literals) must equal the structure read off the meta-grammar's parse tree - also after the same text has been loaded with the default optimizer in between.",
+        "Every text is accepted by from_grammar iff the oracle accepts it, and when both accept, names, modifiers, docs and the expression structure (precedence, prefix/postfix chains, bounds, tags, slices, decoded literals) must equal the structure read off the meta-grammar's parse tree - also after the same text has been loaded with the default optimizer in between. Families added: comment shapes, expression sites, every escape form and raw control characters in every kind of literal.",
         "Trusted: refpeg's execution of meta.pest; the adapter from Expression objects to the harness AST (a refactor that renames fields gives HARNESS-ERROR, not VIOLATION). Not covered: bodies longer than K tokens except the ~250 hand-picked deeper texts and the bundled files.",
         "5/C10",
     ),
@@ -97,7 +97,7 @@ CHECKS = {
         "fault_enumeration", "texts",
         "exhaustive fault enumeration: every short string over the grammar alphabet, every short token soup, every truncation / single-character fault of every bundled grammar, every escape form; outcome-type oracle",
         "Each text is loaded with and without the default optimizer; the only admissible outcomes are a Parser or a PestGrammarError whose str() renders and whose line:column exists in the text. "
-        "Families: all short strings and token soups, every prefix / single-character deletion of the bundled grammars, escape forms, pumped units (openers, unterminated literals/comments, chains of postfix operators) repeated 25-400 times, numbers of up to 20,000 digits, odd characters (lone surrogates, NUL, Unicode separators, non-ASCII digits) at 35 places. Texts that can exhaust memory or time run in a forked child with an address-space limit and a hard timeout.",
+        "Families: all short strings and token soups, every prefix / single-character deletion of the bundled grammars, escape forms, pumped units (openers, unterminated literals/comments, chains of postfix operators) repeated 25-400 times, numbers of up to 20,000 digits, odd characters (lone surrogates, NUL, Unicode separators, non-ASCII digits) at 35 places, every range over 38 bounds, letters whose case forms are longer than one character, chains of 25-200 rules that refer to the next one twice. Texts that can exhaust memory or time run in a forked child with an address-space limit and a hard timeout.",
         "Trusted: CPython. Termination is checked up to a 20 s watchdog. One open known finding (huge repetition counts unrolled by the optimizer).",
         "5/C11",
     ),
@@ -120,7 +120,7 @@ CHECKS = {
     "C14": (
         "exploration", "enum",
         "exhaustive enumeration of all texts over a 3-4 symbol alphabet (incl. newline) x all offsets x all spans against integer arithmetic on the text",
-        "Every text up to the length bound, every offset 0..len and every span is evaluated through Position/Span/Pair and compared with line/column computed by counting newlines; injectivity of offset->line/col is checked per text; two-text histories (query A, drop it, build B of the same length - usually at A's address - and query B) for every pair of short texts. "
+        "Every text up to the length bound, every offset 0..len and every span is evaluated through Position/Span/Pair and compared with line/column computed by counting newlines; injectivity of offset->line/col is checked per text; every order of three questions on one text object; six long texts incl. the thousands of sibling pairs of a real parse asked in reverse order; two-text histories (query A, drop it, build B of the same length - usually at A's address - and query B) for every pair of short texts. "
         "The domain is finite and fully enumerated, which is the exhaustive half of the property's quantifier.",
         "Trusted: str.count/rfind arithmetic oracle. Not covered: texts longer than the bound, the 'sampled long and non-ASCII texts' clause, line breaks other than \\n.",
         "5/C14",
@@ -128,7 +128,7 @@ CHECKS = {
     "C15": (
         "model_checking", "sched",
         "explicit-state search over all API histories (each replayed in a forked pristine process) + exhaustive exploration of thread schedules of real threads under a cooperative settrace scheduler (preemption-bounded)",
-        "Histories: every sequence of up to d operations from {create unoptimised / default-optimised / custom-pass parser for g1 or g2 (second pool: g3 with implicit WHITESPACE, a rule called SKIP, skip idioms and a tagged reference; g4 with skip idioms evaluated twice per parse), generate a module, succeeding parse, failing parse} is replayed from scratch in its own process; all objects of the history and fresh ones created after it are probed and compared with single-parser processes. "
+        "Histories: every sequence of up to d operations from {create unoptimised / default-optimised / custom-pass parser for g1 or g2 (second pool: g3 with implicit WHITESPACE, a rule called SKIP, skip idioms and a tagged reference; g4 with skip idioms evaluated twice per parse; g5 with a choice-bodied WHITESPACE; g6/g7 with case-insensitive literals that differ in non-ASCII case), generate a module, succeeding parse, failing parse} is replayed from scratch in its own process; all objects of the history and fresh ones created after it are probed and compared with single-parser processes. "
         "Schedules: two threads sharing one parser (interpreter, generated, optimised with lazily compiled regex, lazily unrolled repetition) and parse || from_grammar: every schedule with at most k preemptions at line granularity; each thread must observe what it observes sequentially. The first schedule is run twice to prove determinism.",
         "Trusted: sys.settrace line events as scheduling points (switches inside one line and inside C calls are not enumerated); fork gives a pristine process. At most two threads and k preemptions. A free-running 8-thread pass is only a smoke test.",
         "5/C15",
@@ -144,7 +144,7 @@ CHECKS = {
     "C17": (
         "exploration", "enum",
         "exhaustive enumeration of a bounded JSON document generator (+ all proper prefixes, layouts) and of all calculator token strings up to N tokens; independent reference oracles (json.loads; a precedence-table evaluator)",
-        "JSON: every generated document in four whitespace layouts is parsed by both bundled grammars in all four modes and the tree is mirrored against json.loads; every proper prefix must be rejected. "
+        "JSON: every generated document in four whitespace layouts is parsed by both bundled grammars in all four modes and the tree is mirrored against json.loads; every proper prefix must be rejected; the same str object is parsed a second time on the same parser; every whitespace character RFC 8259 / the calculator grammars allow stands at every gap. "
         "Calculator: every well-formed token string up to N tokens (two layouts) whose every bracketing evaluates safely is evaluated by the three bundled implementations - with their parser modules generated in memory from the current tree, optimised and unoptimised - and compared with an independent recursive-descent evaluator of the documented precedence table.",
         "Trusted: json.loads, Python integer arithmetic, the 40-line reference evaluator. The generators are bounded (depth 3 / width 2; N tokens); nothing is sampled.",
         "5/C17",
@@ -152,7 +152,7 @@ CHECKS = {
     "C18": (
         "model_checking", "enum",
         "exhaustive enumeration of operator tables x well-formed token streams against (1) a transcription of pest's binding-power algorithm and (2) brute force over all trees satisfying the statement's constraints",
-        "All 8,689 tables (0-2 infix operators with both associativities, 0-2 prefix and 0-2 postfix operators, precedences 0-2 with repetition or all distinct, rule names optionally shared between the prefix and the infix/postfix table, associativity given through LEFT_ASSOC/RIGHT_ASSOC) x all well-formed streams up to N tokens are run through a PrattParser subclass whose hooks build tuples; the tree must equal the reference algorithm's and consume the stream. "
+        "All 8,828 tables (0-2 infix operators with both associativities, 0-2 prefix and 0-2 postfix operators, precedences 0-2 with repetition or all distinct, rule names optionally shared between the prefix and the infix/postfix table, associativity given through LEFT_ASSOC/RIGHT_ASSOC, falsy operand nodes, small tables again with tagged pairs, one parser instance per table) x all well-formed streams up to N tokens are run through a PrattParser subclass whose hooks build tuples; the tree must equal the reference algorithm's and consume the stream. "
         "Where the statement alone determines the tree (distinct precedences, no weak prefix after a stronger infix) a brute-force search over all trees confirms the reference (self-check) - so the oracle does not rest on one parsing algorithm.",
         "Trusted: the 40-line transcription of pest::pratt_parser and the constraint checker, cross-checked against each other on every decided case. Streams longer than N tokens are not covered.",
         "5/C18",
